@@ -10,6 +10,7 @@ AST (plain tuples):
          ("ref", e) | ("not", e) | ("deref", e) | ("bin", op, a, b) | ("closure", [pats], e)
          ("if", cond, blk, blk|None) | ("iflet", pat, e, blk, blk|None) | ("match", e, [(pat, e)])
          ("block", blk) | ("struct", name, [(field, e)]) | ("try", e) | ("return", e|None)
+         ("macro", name, raw_text) | ("index", e, e) | ("tuple", [e]) | ("array", [e]) | ("chr", c) | ("cast", e, type) | ("while", cond, blk) | ("whilelet", pat, e, blk)
   blk:   ("blk", [stmt..], tail_expr|None)
   stmt:  ("let", pat, mut?, e) | ("expr", e) | ("for", pat, e, blk) | ("assign", lhs, rhs)
   pat:   ("pid", name) | ("pwild",) | ("ptuple", ctor_path, [pats]) | ("pref", pat) | ("ppath", [seg..])
@@ -21,6 +22,7 @@ TOKEN = re.compile(r"""
     (?P<ws>\s+)
   | (?P<num>\d[\d_]*(?:\.\d+)?(?:[iuf]\d+)?)
   | (?P<str>"(?:[^"\\]|\\.)*")
+  | (?P<chr>'(?:[^'\\]|\\.)')
   | (?P<life>'[A-Za-z_]\w*(?!'))
   | (?P<id>[A-Za-z_]\w*)
   | (?P<op>::|->|=>|==|!=|<=|>=|&&|\|\||\.\.=|\.\.|[-+*/%^!&|=<>@.,;:#?$~(){}\[\]])
@@ -233,7 +235,12 @@ class P:
             else:
                 self.skip_attrs()
                 e = self.expr()
-                if self.at("=") :
+                if self.peek()[1] in ("+", "-") and self.peek(1)[1] == "=" and self.peek()[0] == "op":
+                    op = self.peek()[1]; self.i += 2
+                    rhs = self.expr()
+                    self.eat(";")
+                    stmts.append(("assign", e, ("bin", op, e, rhs)))
+                elif self.at("=") :
                     self.i += 1
                     rhs = self.expr()
                     self.eat(";")
@@ -242,7 +249,7 @@ class P:
                     stmts.append(("expr", e))
                 elif self.at("}"):
                     tail = e
-                elif e[0] in ("if", "iflet", "match", "block"):
+                elif e[0] in ("if", "iflet", "match", "block", "while", "whilelet"):
                     stmts.append(("expr", e))
                 else:
                     raise TranslateError("expected ; or } after expression, found %r" % self.peek()[1])
@@ -275,7 +282,7 @@ class P:
         return ("ppath", segs)
 
     # -- expressions (precedence climbing)
-    BIN = [("||",), ("&&",), ("==", "!=", "<", "<=", ">", ">=")]
+    BIN = [("||",), ("&&",), ("==", "!=", "<", "<=", ">", ">="), ("+", "-"), ("*", "/", "%")]
 
     def expr(self, no_struct=False, level=0):
         if level == len(self.BIN): return self.unary(no_struct)
@@ -322,6 +329,14 @@ class P:
             elif self.at("?"):
                 self.i += 1
                 e = ("try", e)
+            elif self.at("["):
+                self.i += 1
+                ix = self.expr()
+                self.eat("]")
+                e = ("index", e, ix)
+            elif self.at("as"):
+                self.i += 1
+                e = ("cast", e, self.type_())
             else:
                 return e
 
@@ -329,12 +344,29 @@ class P:
         k, v = self.peek()
         if k == "num": self.i += 1; return ("num", v)
         if k == "str": self.i += 1; return ("str", v[1:-1])
+        if k == "chr": self.i += 1; return ("chr", v[1:-1])
         if k == "op" and v == "(":
             self.i += 1
             if self.opt(")"): return ("unit",)
             e = self.expr()
+            if self.at(","):
+                es = [e]
+                while self.opt(","):
+                    if self.at(")"): break
+                    es.append(self.expr())
+                self.eat(")")
+                return ("tuple", es)
             self.eat(")")
             return e
+        if k == "op" and v == "[":
+            self.i += 1
+            es = []
+            while not self.at("]"):
+                es.append(self.expr())
+                if self.opt(";"): es.append(self.expr())
+                self.opt(",")
+            self.eat("]")
+            return ("array", es)
         if k == "op" and v in ("|", "||"):
             pats = []
             if v == "|":
@@ -377,7 +409,18 @@ class P:
                 arms.append((pat, body))
             self.eat("}")
             return ("match", e, arms)
-        if v in ("while", "loop", "unsafe", "async", "move", "break", "continue"):
+        if v == "while":
+            self.i += 1
+            if self.opt("let"):
+                pat = self.pattern(); self.eat("=")
+                e = self.expr(no_struct=True)
+                return ("whilelet", pat, e, self.block())
+            c = self.expr(no_struct=True)
+            return ("while", c, self.block())
+        if v in ("break", "continue"):
+            self.i += 1
+            return (v,)
+        if v in ("loop", "unsafe", "async", "move"):
             raise TranslateError("unsupported construct `%s`" % v)
         segs = [self.ident()]
         while self.at("::"):
@@ -394,8 +437,14 @@ class P:
                 self.opt(",")
             self.eat("}")
             return ("struct", "::".join(segs), fields)
-        if self.at("!"):
-            raise TranslateError("macro invocation %s! not supported" % "::".join(segs))
+        if self.at("!") and self.peek(1)[1] in ("(", "[", "{"):
+            # a macro invocation is kept as an opaque node: translating a function that USES its value fails later,
+            # but the rest of the function (e.g. a decision chain next to a format!-built SQL text) stays readable
+            self.i += 1
+            o = self.peek()[1]
+            start = self.i
+            self.skip_balanced(o, {"(": ")", "[": "]", "{": "}"}[o])
+            return ("macro", "::".join(segs), " ".join(x[1] for x in self.t[start:self.i]))
         return ("id", segs[0]) if len(segs) == 1 else ("path", segs)
 
     def else_(self):
